@@ -1,4 +1,5 @@
 import LyModel.Lyb.TreeLemmasD
+import LyModel.Lyb.TreeLemmasF
 /-!
 # C01 (LYB, tree level) — property theorems
 
@@ -26,21 +27,20 @@ and EVERY print option: **if the printer succeeds** (`printLyb … = some img`: 
 set that occurs — finding F27 is its failure — and no inner-chunk counter overflows), the parser run on the image returns
 `t` with the same nodes, order, canonical values and flags, where exactly the nodes the printer tagged (`wdTagged`:
 `LYD_DEFAULT` under ALL_TAG / IMPL_TAG, or a default-valued term node under ALL_TAG) carry the
-`ietf-netconf-with-defaults:default` annotation as a metadata instance (`viewNode`). -/
+`ietf-netconf-with-defaults:default` annotation as a metadata instance (`viewNode`).  `parseLyb` is the parser with the fuel the driver gives it (`8·|img| + 16`); that it suffices is part of
+the theorem (`cost_le_image`: every node costs the printer at least five payload bytes, and the image holds the payload). -/
 theorem lyb_tree_roundtrip_tagged_partial (P : Params) (hP : P.Ok) (o : POpts) (S : LSchema) (hwd : WdRevOk S)
     (hname : S.modName ≠ []) (hrev : unpackRev (packRev S.rev) = S.rev)
-    (t : List DNode) (hwf : WfForest S t) (img : Bytes) (hp : printLyb P o S t = some img)
-    (fuel : Nat) (hf : costL t + 1 ≤ fuel) :
-    parseLybF P S fuel img = some (t.map (viewNode o S)) :=
-  doc_rt P hP o S hwd hname hrev t hwf img hp fuel hf
+    (t : List DNode) (hwf : WfForest S t) (img : Bytes) (hp : printLyb P o S t = some img) :
+    parseLyb P S img = some (t.map (viewNode o S)) :=
+  doc_rt P hP o S hwd hname hrev t hwf img hp _ (by have := cost_le_image P hP o S t img hp; omega)
 
 /-- **LYB tree round trip** (untagged modes: explicit / trim / all): `parse (print t) = t`. -/
 theorem lyb_tree_roundtrip (P : Params) (hP : P.Ok) (o : POpts) (ho : Untagged o) (S : LSchema) (hwd : WdRevOk S)
     (hname : S.modName ≠ []) (hrev : unpackRev (packRev S.rev) = S.rev)
-    (t : List DNode) (hwf : WfForest S t) (img : Bytes) (hp : printLyb P o S t = some img)
-    (fuel : Nat) (hf : costL t + 1 ≤ fuel) :
-    parseLybF P S fuel img = some t := by
-  have := lyb_tree_roundtrip_tagged_partial P hP o S hwd hname hrev t hwf img hp fuel hf
+    (t : List DNode) (hwf : WfForest S t) (img : Bytes) (hp : printLyb P o S t = some img) :
+    parseLyb P S img = some t := by
+  have := lyb_tree_roundtrip_tagged_partial P hP o S hwd hname hrev t hwf img hp
   rwa [viewL_id o S (fun n => untagged o S n (Or.inl ho))] at this
 
 /-- **… with the repair of finding F330** (`fixes/F330.diff`: `lyb_print_metadata` without the with-defaults block — the
@@ -48,18 +48,17 @@ extractor then sets `lybWdAnnot = false`, the default of `POpts.wdAnnot`): `pars
 with-defaults mode, the tagged ones included: the flags carry the default-ness exactly. -/
 theorem lyb_tree_roundtrip_tagged_fixed (P : Params) (hP : P.Ok) (o : POpts) (hfix : o.wdAnnot = false) (S : LSchema)
     (hwd : WdRevOk S) (hname : S.modName ≠ []) (hrev : unpackRev (packRev S.rev) = S.rev)
-    (t : List DNode) (hwf : WfForest S t) (img : Bytes) (hp : printLyb P o S t = some img)
-    (fuel : Nat) (hf : costL t + 1 ≤ fuel) :
-    parseLybF P S fuel img = some t := by
-  have := lyb_tree_roundtrip_tagged_partial P hP o S hwd hname hrev t hwf img hp fuel hf
+    (t : List DNode) (hwf : WfForest S t) (img : Bytes) (hp : printLyb P o S t = some img) :
+    parseLyb P S img = some t := by
+  have := lyb_tree_roundtrip_tagged_partial P hP o S hwd hname hrev t hwf img hp
   rwa [viewL_id o S (fun n => untagged o S n (Or.inr hfix))] at this
 
 /-- the same at the constants of the source tree -/
 theorem lyb_tree_roundtrip_gen (o : POpts) (ho : Untagged o) (S : LSchema) (hwd : WdRevOk S) (hname : S.modName ≠ [])
     (hrev : unpackRev (packRev S.rev) = S.rev) (t : List DNode) (hwf : WfForest S t) (img : Bytes)
-    (hp : printLyb Params.gen o S t = some img) (fuel : Nat) (hf : costL t + 1 ≤ fuel) :
-    parseLybF Params.gen S fuel img = some t :=
-  lyb_tree_roundtrip Params.gen C01Lyb.params_gen_ok o ho S hwd hname hrev t hwf img hp fuel hf
+    (hp : printLyb Params.gen o S t = some img) :
+    parseLyb Params.gen S img = some t :=
+  lyb_tree_roundtrip Params.gen C01Lyb.params_gen_ok o ho S hwd hname hrev t hwf img hp
 
 /-- the revision hypothesis holds for a module without revision and (by `lyb_revision_pack_roundtrip`) for every date
 2000-01-01 … 2127-12-31; outside that range the format cannot hold the year (finding F70) -/
@@ -145,12 +144,12 @@ with the container — whose frame holds the leaf and the leaf-list frame — an
 the parse of the image -/
 theorem exPrint : printLyb Params.gen {} exS exT = some exImg := by decide
 
-example : parseLybF Params.gen exS 40 exImg = some exT :=
+example : parseLyb Params.gen exS exImg = some exT :=
   lyb_tree_roundtrip_gen {} ⟨rfl, rfl⟩ exS (by intro w h; cases h) (by decide) (by decide) exT
     (by
       refine ⟨⟨rfl, rfl, ⟨rfl, trivial, .bool true, rfl, rfl⟩, ⟨rfl, ⟨by simp [Val.Ty.WF, Val.PartsWF], .num 7, rfl, rfl⟩⟩,
         ⟨rfl, ⟨by simp [Val.Ty.WF, Val.PartsWF], .num 255, rfl, rfl⟩⟩, trivial⟩, ⟨rfl, rfl⟩, trivial⟩)
-    exImg exPrint 40 (by decide)
+    exImg exPrint
 
 /-! ## outside the hypotheses -/
 
